@@ -91,6 +91,27 @@ theorem source_shape :
     by decide, by decide +kernel, by decide, by decide, by decide, by decide, by decide, by decide, by decide, by decide⟩
   intro t; cases t <;> decide
 
+/-- Tie to the source (wave 5): the line state machine of `preprocess_included_file` (what is a line, what is a directive:
+a `#` met at the start of a line, blanks skipped between `#` and the directive name, a line end met before a directive name
+-- the null directive -- goes to `active_tokens`), the operand forms of `#include` (`Line.incl` for a string literal AND a
+header name), and the arms that reject a directive whatever the state (`Line.rejected`). -/
+theorem source_shape_directive_forms :
+    lineStateArms =
+      ["(Token::Endline, CommandParseState::CommandContents)",
+       "(Token::Endline, _) => { command_state = CommandParseState::StartOfLine; active_tokens.push(next) }",
+       "(Token::Hash, CommandParseState::StartOfLine)",
+       "(tok, CommandParseState::CommandStart) if !tok.is_whitespace()",
+       "(tok, CommandParseState::StartOfLine)",
+       "_ => active_tokens.push(next)"] ∧
+    includeOperand =
+      "[PreprocessToken(Token::LiteralString(s), _)] => s.clone(), [PreprocessToken(Token::HeaderName(s), _)] => s.clone(), _ => return Err(PreprocessError::InvalidInclude(command_location))," ∧
+    rejectingArms =
+      ["_ if skip => return Ok(()), _ => return Err(PreprocessError::UnknownCommand(command_location)),",
+       "_ => Err(PreprocessError::UnknownPragma(ext.get_location())),",
+       "else { Err(PreprocessError::UnknownPragma( pragma_command.first().get_location(), )) }",
+       "_ if skip => Ok(()), _ => Err(PreprocessError::UnknownCommand(command_location)),"] := by
+  refine ⟨by decide +kernel, by decide +kernel, by decide +kernel⟩
+
 /-! ## Termination -/
 
 /-- **expand_terminates.** `applyLoop` -- the `while` loop of `apply_macros_internal` together with the recursive
@@ -450,6 +471,65 @@ theorem api_define_with_line_break_is_rejected (inc : String → State → Excep
           exact ih m1 ms h
   unfold runInitial
   rw [key pre [] ms hpre]
+
+/-- **rejected_directive_rejects_the_file** (wave 5).  A directive line that `preprocess_command` rejects whatever the
+state -- `#pragma` with an unknown or missing name, a directive name that is none, `#include` whose operand is not one
+string literal / header name -- makes the file fail, wherever it stands and whatever follows it: the lines in front of
+it are processed as usual, the text pending in front of it is expanded first (the line state machine flushes when it
+meets the `#`), and if that succeeds the error of the directive is the result -- nothing behind the line is looked at. -/
+theorem rejected_directive_rejects_the_file (inc : String → State → Except Err State) (cur : String) (st0 : State)
+    (pre post : List Line) (e : Err) :
+    runFile inc cur st0 (pre ++ .rejected e :: post) =
+      (match foldLines inc cur (st0, fileStart (pre ++ .rejected e :: post)) pre with
+       | .error e' => .error e'
+       | .ok (st, active) =>
+         match flush st active with
+         | .error e' => .error e'
+         | .ok _ => .error e) := by
+  unfold runFile
+  rw [RsslVerif.Lemmas.Include.foldLines_append]
+  cases hp : foldLines inc cur (st0, fileStart (pre ++ .rejected e :: post)) pre with
+  | error e' => rfl
+  | ok s =>
+    obtain ⟨st, active⟩ := s
+    simp only [foldLines, stepLine]
+    cases hf : flush st active with
+    | error e' => rfl
+    | ok st1 => rfl
+
+/-- non-vacuity: `#pragma foo` in front of a line that is never reached (here a malformed `#define`), for every includer
+state; an unknown directive as the only line of a file -/
+example (inc : String → State → Except Err State) (st : State) :
+    runFile inc "main" st [.rejected .unknownPragma, .define (located [])] = .error .unknownPragma := by
+  simp [runFile, foldLines, stepLine, fileStart, flush, applyMacros_nil]
+example (inc : String → State → Except Err State) (st : State) :
+    runFile inc "f1" st [.pragmaOnce, .rejected .unknownCommand] = .error .unknownCommand := by
+  simp [runFile, foldLines, stepLine, fileStart, flush, applyMacros_nil]
+
+/-- **null_directive_is_boundary_and_empty_line** (wave 5).  The null directive (`#` alone on its line, C11 6.10.7) has no
+effect of its own: in every file, at every place, it is worth a directive without effect (a block boundary: the text in
+front of it is expanded on its own, like in front of `#pragma warning`) followed by an empty line -- same macro table,
+same `#pragma once` set, same output, same error. -/
+theorem null_directive_is_boundary_and_empty_line (inc : String → State → Except Err State) (cur : String) (st0 : State)
+    (pre post : List Line) :
+    runFile inc cur st0 (pre ++ .null :: post) = runFile inc cur st0 (pre ++ .pragmaWarning :: .text [] :: post) := by
+  have hstart : fileStart (pre ++ Line.null :: post) = fileStart (pre ++ Line.pragmaWarning :: Line.text [] :: post) := by
+    cases pre <;> rfl
+  unfold runFile
+  rw [hstart, RsslVerif.Lemmas.Include.foldLines_append, RsslVerif.Lemmas.Include.foldLines_append]
+  cases foldLines inc cur (st0, fileStart (pre ++ Line.pragmaWarning :: Line.text [] :: post)) pre with
+  | error e => rfl
+  | ok s =>
+    obtain ⟨st, active⟩ := s
+    simp only [foldLines, stepLine]
+    cases flush st active with
+    | error e => rfl
+    | ok st1 => simp
+
+/-- non-vacuity: a file that is a null directive only yields what a `#pragma warning` line and an empty line yield -/
+example (inc : String → State → Except Err State) (st : State) :
+    runFile inc "main" st [.null] = runFile inc "main" st [.pragmaWarning, .text []] :=
+  null_directive_is_boundary_and_empty_line inc "main" st [] []
 
 /-- non-vacuity: `A=1` then `B=2⏎` -/
 example : initialMacros [] [⟨[.id "A"], [.int "1"]⟩, ⟨[.id "B"], [.int "2", .endline]⟩] = .error .invalidDefine := by
